@@ -259,6 +259,25 @@ def run(ctx):
             traces.append({"tid": tid, "cfg": {"na": 9, "neig": 2, "nguess": 2, "mode": "uppest", "M": False, "spectrum": "degenerate", "fixed": True}, "ev": ev0})
         ctx.case(key=("davidson-fixed-reproducer",))
     rej = ctx.validate_traces("Trace_Davidson.tla", "Trace_Davidson.cfg", traces, shards=8)
+
+    def m_verdict(t):
+        if t["ev"][-1]["a"] == "ret":
+            t["ev"][-1]["verdicts"][0][1] = False
+            return t
+
+    def m_cols(t):
+        ap = [e for e in t["ev"] if e["a"] == "apply"]
+        if len(ap) >= 2:
+            ap[1]["ncols"] += 1                              # the operator applied to more vectors than the expansion added
+            return t
+
+    def m_first(t):
+        ap = [e for e in t["ev"] if e["a"] == "apply"]
+        if ap and t["ev"][-1]["a"] == "ret":
+            ap[0]["ncols"] += 1                              # initial search space of another size than requested
+            return t
+    ctx.binding_selftest("Trace_Davidson.tla", "Trace_Davidson.cfg", traces, rej,
+                         [("verdict false", m_verdict), ("expansion size", m_cols), ("initial space size", m_first)])
     bytid = {t_["tid"]: t_ for t_ in traces}
     for tid_, matched, total in rej:
         t_ = bytid[tid_]
